@@ -426,11 +426,29 @@ func (r *renderState) filterRaw(rawHTML []byte) {
 				case hasBytePrefix(rawHTML[i:], htmlCommentPrefix):
 					state = commentState
 					i += len(htmlCommentPrefix)
+					// An HTML tokenizer ends a comment that starts with ">" or "->" right there.
+					switch {
+					case hasBytePrefix(rawHTML[i:], ">"):
+						state = copyState
+						i += len(">")
+					case hasBytePrefix(rawHTML[i:], "->"):
+						state = copyState
+						i += len("->")
+					}
 				case hasHTMLDeclarationPrefix(rawHTML[i:]):
 					state = declState
 					i += len("<!x")
 				default:
 					tagNameStart := i + 1
+					if tagNameStart < len(rawHTML) {
+						c := rawHTML[tagNameStart]
+						if !isASCIILetter(c) && c != '/' && c != '!' && c != '?' {
+							// An HTML tokenizer treats this "<" as text:
+							// the next "<" may still start a tag.
+							i++
+							continue
+						}
+					}
 					tagEnd := len(rawHTML)
 					if j := bytes.IndexByte(rawHTML[tagNameStart:], '>'); j >= 0 {
 						tagEnd = tagNameStart + j + len(">")
@@ -449,9 +467,13 @@ func (r *renderState) filterRaw(rawHTML []byte) {
 				i++
 			}
 		case commentState:
+			// An HTML tokenizer also ends a comment at "--!>".
 			if hasBytePrefix(rawHTML[i:], htmlCommentSuffix) {
 				state = copyState
 				i += len(htmlCommentSuffix)
+			} else if hasBytePrefix(rawHTML[i:], "--!>") {
+				state = copyState
+				i += len("--!>")
 			} else {
 				i++
 			}
@@ -468,12 +490,12 @@ func (r *renderState) filterRaw(rawHTML []byte) {
 			}
 			i++
 		case cdataState:
-			if hasBytePrefix(rawHTML[i:], cdataSuffix) {
+			// An HTML tokenizer reads CDATA outside foreign content as a bogus comment,
+			// which ends at the first ">".
+			if rawHTML[i] == '>' {
 				state = copyState
-				i += len(cdataSuffix)
-			} else {
-				i++
 			}
+			i++
 		default:
 			panic("unreachable")
 		}
